@@ -477,7 +477,7 @@ func init() {
 	core.Register(&core.Prop{
 		ID:    "C04",
 		Level: "exploration",
-		Rule:  "every XML document with up to N elements (all tree shapes to depth 4, names {a,b}, optional attribute k, text before/after the children, for documents up to 3 (thorough 4) elements also the same local name under different namespace prefixes (a, p:a, q:a) with prefixed target paths, and for documents up to 2 (thorough 3) elements also comments, CDATA sections, processing instructions and line breaks there; once with a unique id attribute per element for exact node identity and once without) and every JSON value with up to N value nodes (scalars, arrays, objects over keys {a,b}, any nesting) x every target xpath = path in {/a,/a/b,/*/b,//b,/a//b,/a/*,//*,..} + final-step predicate on the candidate's own value/attribute/text/children/descendants (incl. literals containing brackets and the other quote character), and - on documents up to 3 (thorough 4) nodes - several filters on the final step and spelling variants (white space, nested brackets, self axis); the stream reader's delivered nodes (serialised at delivery time) must equal, in order, the outermost nodes selected on the fully loaded document that satisfy the full xpath; a case is distinct by (document, xpath), outcome class = (xpath, number of records)",
+		Rule:  "every XML document with up to N elements (all tree shapes to depth 4, names {a,b}, optional attribute k, text before/after the children, for documents up to 3 (thorough 4) elements also the same local name under different namespace prefixes (a, p:a, q:a) with prefixed target paths, and for documents up to 2 (thorough 3) elements also comments, CDATA sections, processing instructions and line breaks there; once with a unique id attribute per element for exact node identity and once without) and every JSON value with up to N value nodes (scalars, arrays, objects over keys {a,b}, any nesting) x every target xpath = path in {/a,/a/b,/*/b,//b,/a//b,/a/*,//*,..} + final-step predicate on the candidate's own value/attribute/text/children/descendants (incl. literals containing brackets and the other quote character), and - on documents up to 3 (thorough 4) nodes - several filters on the final step and spelling variants (white space, nested brackets, self axis); the stream reader's delivered nodes (serialised at delivery time) must equal, in order, the outermost nodes selected on the fully loaded document that satisfy the full xpath; a case is distinct by (document, xpath), outcome class = (xpath, number of records); elements binding a URI again that an outer element bound to another prefix; quote-in-literal predicates in parentheses and unions",
 		Assumptions: []string{
 			"the whole-document tree is loaded by the same reader with target '.', so node construction itself is C08's subject, not C04's",
 			"xpaths are of the property's class: predicates only on the final step and only about the candidate itself",
